@@ -301,6 +301,14 @@ def gen_objects(ctx, g, volume=1):
                             vecs = [coeffs(B, e) for e in es]
                             yield dict(type="povm", basis=bname, atol=atol, c=c, B=B, onh0=onh0, arr=vecs, m=m,
                                        design=dict(dt=dt, where=where, mu=mu))
+                # ---- structured non-CP maps whose HS matrix is orthogonal (transpose, reflections, ...)
+                if atol in (ATOLS[0], ATOLS[-1]):
+                    for name, hs in orthogonal_noncp(g, B, d):
+                        yield dict(type="gate", basis=bname, atol=atol, c=c, B=B, onh0=onh0, arr=hs, design=dict(dt=0.0, family=name))
+                        m = 2
+                        hss = [0.4 * hs, 0.6 * gate_hs(g, B, d, None)]
+                        yield dict(type="mprocess", basis=bname, atol=atol, c=c, B=B, onh0=onh0, arr=hss, m=m,
+                                   design=dict(dt=0.0, family=name))
                 # ---- gates (first-row branch) and measurement processes
                 for dt in sizes(atol, d1=False) + [1e-5]:
                     for mu in (None, 0.0, -atol / 10, -10 * atol, -0.2):
@@ -319,6 +327,21 @@ def gen_objects(ctx, g, volume=1):
                         hss[k] = hss[k].copy(); hss[k][0, j] += dt
                         yield dict(type="mprocess", basis=bname, atol=atol, c=c, B=B, onh0=onh0, arr=hss, m=m,
                                    design=dict(dt=dt, mu=mu, col=j))
+
+
+def orthogonal_noncp(g, B, d):
+    """trace-preserving, positive-or-not maps that are NOT completely positive although their HS matrix is orthogonal"""
+    T = hs_generic(B, lambda x: x.T).real.astype(np.float64)
+    n = d * d
+    out = [("transpose", T), ("unitary*transpose", hs_unitary(B, qobj.rand_unitary(g, d)) @ T),
+           ("transpose*unitary", T @ hs_unitary(B, qobj.rand_unitary(g, d)))]
+    refl = np.eye(n); refl[n - 1, n - 1] = -1.0
+    out.append(("reflection", refl))
+    out.append(("universal-not-like", np.diag([1.0] + [-1.0] * (n - 1))))
+    if d == 4:
+        pt = lambda x: x.reshape(2, 2, 2, 2).transpose(0, 3, 2, 1).reshape(4, 4)     # partial transpose on the second factor
+        out.append(("partial-transpose", hs_generic(B, pt).real.astype(np.float64)))
+    return out
 
 
 def projective(g, d, m):
@@ -677,17 +700,20 @@ def check_origin(ctx, bname, m, g):
     c, B = csys(bname)
     d = c.dim
     n = d * d
-    objs = {"state": qobj.rand_state(g, c), "povm": qobj.rand_povm(g, c, m), "gate": qobj.rand_gate(g, c),
+    kw = dict(is_physicality_required=False)
+    phys = {"state": qobj.rand_state(g, c), "povm": qobj.rand_povm(g, c, m), "gate": qobj.rand_gate(g, c),
             "mprocess": qobj.rand_mprocess(g, c, m)[0]}
-    for ty, o in objs.items():
-        rep = {"kind": "origin", "type": ty, "basis": bname, "m": m}
-        ctx.case(("origin", ty, bname, m), nontrivial=True)
-        try:
-            org, zero = o.generate_origin_obj(), o.generate_zero_obj()
-            ok_phys = bool(org.is_physical())
-            st, z = org.to_stacked_vector(), zero.to_stacked_vector()
-        except Exception as e:  # noqa
-            ctx.violate(f"C01/{CLSNAME[ty]}.generate_origin_obj/raises", f"{type(e).__name__}: {e}", rep); continue
+    sources = {
+        "state": [("physical", phys["state"]), ("random", State(c, qobj.dyadic(g, n, 6, 1.0) + 0.25, **kw)),
+                  ("gradient", phys["state"].calc_gradient(1)), ("zero", phys["state"].generate_zero_obj())],
+        "povm": [("physical", phys["povm"]), ("random", Povm(c, [qobj.dyadic(g, n, 6, 1.0) + 0.25 for _ in range(m)], **kw)),
+                 ("gradient", phys["povm"].calc_gradient(1)), ("zero", phys["povm"].generate_zero_obj())],
+        "gate": [("physical", phys["gate"]), ("random", Gate(c, qobj.dyadic(g, (n, n), 6, 1.0) + 0.25, **kw)),
+                 ("gradient", phys["gate"].calc_gradient(1)), ("zero", phys["gate"].generate_zero_obj())],
+        "mprocess": [("physical", phys["mprocess"]), ("random", MProcess(c, [qobj.dyadic(g, (n, n), 6, 1.0) + 0.25 for _ in range(m)], **kw)),
+                     ("gradient", phys["mprocess"].calc_gradient(1)), ("zero", phys["mprocess"].generate_zero_obj())],
+    }
+    for ty, srcs in sources.items():
         if ty == "state":
             want = coeffs(B, np.eye(d) / d)
         elif ty == "povm":
@@ -695,12 +721,27 @@ def check_origin(ctx, bname, m, g):
         else:
             dep = hs_generic(B, lambda x: np.trace(x) * np.eye(d) / d).real
             want = dep.flatten() if ty == "gate" else np.hstack([dep.flatten() / m] * m)
-        if not ok_phys:
-            ctx.violate(f"C01/{CLSNAME[ty]}.generate_origin_obj/not-physical", f"{bname} m={m}: origin object is not physical at the default atol", rep)
-        if st.shape != want.shape or np.abs(st - want).max() > 1e-12:
-            ctx.violate(f"C01/{CLSNAME[ty]}.generate_origin_obj/wrong-operator", f"{bname} m={m}: origin is not the maximally mixed / uniform / depolarising object", rep)
-        if np.abs(z).max() != 0 or z.shape != want.shape:
-            ctx.violate(f"C01/{CLSNAME[ty]}.generate_zero_obj/nonzero", f"{bname} m={m}: zero object is not the zero operator", rep)
+        for sname, o in srcs:
+            rep = {"kind": "origin", "type": ty, "basis": bname, "m": m, "source": sname}
+            sfx = "" if sname == "physical" else "/from-nonphysical-source"
+            ctx.case(("origin", ty, bname, m, sname), nontrivial=True)
+            try:
+                before = np.array(o.to_stacked_vector(), dtype=np.float64).copy()
+                org, zero = o.generate_origin_obj(), o.generate_zero_obj()
+                ok_phys = bool(org.is_physical())
+                st, z = org.to_stacked_vector(), zero.to_stacked_vector()
+            except Exception as e:  # noqa
+                ctx.violate(f"C01/{CLSNAME[ty]}.generate_origin_obj/raises" + sfx, f"{bname} m={m} source={sname}: {type(e).__name__}: {e}", rep); continue
+            if not ok_phys:
+                ctx.violate(f"C01/{CLSNAME[ty]}.generate_origin_obj/not-physical" + sfx,
+                            f"{bname} m={m}: origin object derived from a {sname} object is not physical at the default atol", rep)
+            if st.shape != want.shape or np.abs(st - want).max() > 1e-12:
+                ctx.violate(f"C01/{CLSNAME[ty]}.generate_origin_obj/wrong-operator" + sfx,
+                            f"{bname} m={m}: origin derived from a {sname} object is not the maximally mixed / uniform / depolarising object", rep)
+            if np.abs(z).max() != 0 or z.shape != want.shape:
+                ctx.violate(f"C01/{CLSNAME[ty]}.generate_zero_obj/nonzero" + sfx, f"{bname} m={m} source={sname}: zero object is not the zero operator", rep)
+            if not np.array_equal(before, np.asarray(o.to_stacked_vector())):
+                ctx.violate(f"C01/{CLSNAME[ty]}.generate_origin_obj/mutates-source", f"{bname} m={m} source={sname}", rep)
 
 
 def check_bases(ctx):
